@@ -1250,3 +1250,91 @@ Proof.
     try (intros t [<-|[]]; cbn; lia);
     try (unfold recv_at in H; cbn in H; inversion H; subst r; cbn; lia).
 Qed.
+
+(* ---------- the executable event-level semantics (what is extracted and run against the code) ---------- *)
+Definition internal (a : act) : Prop :=
+  match a with APush _ _ _ | AConnect _ | ABreak _ | ARestart _ => False | _ => True end.
+
+Lemma internal_wf x a : internal a -> wf_act x a.
+Proof. destruct a; cbn; intros H; try exact I; destruct H. Qed.
+
+Lemma first_some_internal {A} (f : nat -> A -> option act) (l : list A) :
+  (forall i y a, f i y = Some a -> internal a) -> forall i a, first_some f i l = Some a -> internal a.
+Proof.
+  intros Hf. induction l as [|y l IH]; intros i a H; cbn [first_some] in H; [discriminate|].
+  destruct (f i y) as [a'|] eqn:E; [inversion H; subst; eapply Hf; exact E|eapply IH; exact H].
+Qed.
+
+Lemma handoff_act_internal ss sr ps a : handoff_act ss sr ps = Some a -> internal a.
+Proof.
+  induction ps as [|[T c] ps IH]; cbn [handoff_act]; [discriminate|].
+  destruct (nth_error ss T) as [s|]; [destruct (s_conn s && has_room s); [intros H; inversion H; exact I|exact IH]|exact IH].
+Qed.
+
+Lemma next_act_internal x a : next_act x = Some a -> internal a.
+Proof.
+  unfold next_act. intros H.
+  destruct (first_some sender_act 0 (sends x)) as [a1|] eqn:E1.
+  { inversion H; subst. eapply (first_some_internal sender_act); [|exact E1]. intros i s a0 Hs. unfold sender_act in Hs.
+    destruct (negb (s_conn s)); [discriminate|]. destruct (s_inflight s); [destruct (s_stalled s); [discriminate|inversion Hs; exact I]|].
+    destruct (s_chan s); [discriminate|inversion Hs; exact I]. }
+  destruct (first_some (acker_act (recvs x)) 0 (sends x)) as [a2|] eqn:E2.
+  { inversion H; subst. eapply (first_some_internal (acker_act (recvs x))); [|exact E2]. intros i s a0 Hs. unfold acker_act in Hs.
+    destruct (negb (s_conn s)); [discriminate|]. destruct (s_ackflight s) as [fl|].
+    - destruct (af_todo fl) as [|[sr0 v0] rest]; [inversion Hs; exact I|]. destruct (nth_error (recvs x) sr0) as [r0|]; [|discriminate].
+      destruct (Nat.ltb (length (r_ackq r0)) chan_cap); [inversion Hs; exact I|discriminate].
+    - destruct (s_ackin s); [discriminate|inversion Hs; exact I]. }
+  eapply (first_some_internal (receiver_act (sends x))); [|exact H]. intros i r a0 Hr. unfold receiver_act in Hr.
+  destruct (r_ackq r); [|inversion Hr; exact I]. destruct (r_pending r) as [|p ps] eqn:Ep.
+  - destruct (r_inq r); [discriminate|inversion Hr; exact I].
+  - eapply handoff_act_internal. exact Hr.
+Qed.
+
+Lemma settle_acts_wf fuel : forall x, wf_run x (settle_acts fuel true x).
+Proof.
+  induction fuel as [|f IH]; intros x; cbn [settle_acts]; [exact I|].
+  destruct (next_act x) as [a|] eqn:E; [|exact I]. cbn [wf_run]. split; [apply internal_wf; eapply next_act_internal; exact E|apply IH].
+Qed.
+
+Lemma wf_run_app l1 : forall x l2, wf_run x l1 -> wf_run (fst (run_acts true x l1)) l2 -> wf_run x (l1 ++ l2).
+Proof.
+  induction l1 as [|a l1 IH]; intros x l2 H1 H2; cbn [app]; [exact H2|]. cbn [wf_run run_acts] in *. destruct H1 as [Ha H1].
+  split; [exact Ha|]. destruct (apply_act true x a) as [x1 o1]. cbn [fst] in *. apply IH; [exact H1|].
+  destruct (run_acts true x1 l1) as [x2 o2]. exact H2.
+Qed.
+
+(* an external event is well formed when its environment action is; stream failures are excluded (property C04) *)
+Definition wf_ev (x : st) (e : ev) : Prop :=
+  match e with
+  | ESrc sr ts high => wf_act x (APush sr ts high)
+  | EConnect T => wf_act x (AConnect T)
+  | EBreakT _ | ERestartS _ => False
+  | _ => True
+  end.
+
+Lemma step_acts_wf x e : wf_ev x e -> wf_run x (step_acts true x e).
+Proof.
+  intros H. unfold step_acts. apply wf_run_app; [|apply settle_acts_wf].
+  destruct e; cbn [ev_acts wf_run wf_ev] in *; try (split; [exact H|exact I]); try (split; [exact I|exact I]); try destruct H.
+  split; [exact I|split; exact I].
+Qed.
+
+(* one event of the executable semantics: every acknowledgement it emits is safe when it is emitted, and the invariant
+   holds again afterwards *)
+Theorem step_safe x e : Inv x -> wf_ev x e -> all_safe x (step_acts true x e) /\ Inv (fst (step true x e)).
+Proof.
+  intros HI Hwf. pose proof (step_acts_wf x e Hwf) as Hrun. split; [apply safe_acks; assumption|].
+  rewrite step_is_run_acts. apply inv_run; assumption.
+Qed.
+
+Fixpoint wf_events (x : st) (evs : list ev) : Prop :=
+  match evs with [] => True | e :: rest => wf_ev x e /\ wf_events (fst (step true x e)) rest end.
+
+Fixpoint events_safe (x : st) (evs : list ev) : Prop :=
+  match evs with [] => True | e :: rest => all_safe x (step_acts true x e) /\ events_safe (fst (step true x e)) rest end.
+
+Theorem events_safe_all evs : forall x, Inv x -> wf_events x evs -> events_safe x evs.
+Proof.
+  induction evs as [|e evs IH]; intros x HI Hwf; cbn [events_safe]; [exact I|]. destruct Hwf as [He Hrest].
+  destruct (step_safe x e HI He) as [Hs Hi]. split; [exact Hs|apply IH; assumption].
+Qed.
